@@ -39,7 +39,7 @@ func (a *arena) atEnd(n int) []byte {
 // atStart returns a slice of n bytes starting right after the leading guard page, with
 // spare capacity.
 func (a *arena) atStart(n, spare int) []byte {
-	return a.data[0:n : n+spare]
+	return a.data[0 : n : n+spare]
 }
 
 func (a *arena) readOnly() {
